@@ -412,6 +412,7 @@ fn match_repr(rule: &Rule, d: &J, repr: &str, variant: u64) -> Result<&'static s
         "own" => matches(rule, &own_root(d, false)?),
         "ownsigned" => matches(rule, &own_root(d, true)?),
         "doc" => matches(rule, &OwnDoc(own_root(d, false)?)),
+        "ownfind" => matches(rule, &find_root(d)?),
         x => return Err(format!("unknown representation {}", x)),
     })
 }
